@@ -215,14 +215,15 @@ def rule_tolerance(ck):
         if st is not None and st[1] > 0:
             atoms = [a for a, e in st[0]]
             has_abs = any(a[0] == 'call' and a[1] == 'abs' for a in atoms)
-            has_eps = any('eps' in sym.show_atom(a) for a in atoms)
+            has_eps = any('eps' in sym.show_atom(a) and ('%s.dtype' % param) in sym.show_atom(a) for a in atoms)
             raw = any(a == ('n', param) for a in atoms)
             ok = has_abs and has_eps and not raw
         if ok:
             o.ok('|v| * eps with positive coefficient')
         else:
-            o.fail('tolerance `%s` is not |v|*eps with a positive coefficient: it can be negative or is not scaled '
-                   'by the machine epsilon, so the bias is no longer towards the upper bin' % sym.show(p))
+            o.fail('tolerance `%s` is not |v|*eps(v.dtype) with a positive coefficient: it can be negative, or is not scaled by the machine '
+                   'epsilon of the value\'s own dtype (a float32 value carries float32 round-off), so a value on an edge can fall '
+                   'into the bin below' % sym.show(p))
 
 
 def _threshold(cond_poly, idx_atom, N):
@@ -519,12 +520,23 @@ def rule_generators(ck):
     dtxt = N.nf(d)
     want = N.nf(scale) * N.nf(ast.Name(id=h, ctx=ast.Load()))
     ok = dtxt == want
+    why = 'the step `%s` is not scale*h (optionally snapped)' % u(d)[:80]
     if not ok:
-        # snapped: a call whose first argument is scale*h
+        # snapped: a call of a package function that returns its argument unchanged unless it is an integer up to noise
         s = strip_shape(d)
         if isinstance(s, ast.Call) and s.args and N.nf(s.args[0]) == want:
-            ok = True
-    (oo.ok('d = [snap](scale*h)') if ok else oo.fail('the step `%s` is not scale*h (optionally snapped)' % u(d)[:80]))
+            cn = call_name(s)
+            if cn in P.funcs:
+                sf = P.funcs[cn]
+                keeps = any(isinstance(r.value, ast.Name) and r.value.id == sf.positional_params[0] for r in returns(sf) if r.value is not None)
+                if keeps:
+                    ok = True
+                else:
+                    why = 'the step goes through %s, which never returns its argument unchanged' % sf.short
+            else:
+                why = ('the step is `%s`: rounding scale*h to an integer destroys legitimate non-integer grid steps (start 5.0, step 0.25: '
+                       'scale*h = 2.5 becomes 2, edges 5.0, 5.2, 5.4, ...); only a snap that leaves non-integers alone is admissible' % u(d)[:60])
+    (oo.ok('d = [snap](scale*h)') if ok else oo.fail(why))
     # the power-of-ten scale must cover the decimals of the start AND of the step, otherwise scale*start / scale*h are not integers
     oo = ck.ob('C02-D5.decimals', f, scale, rets[0])
     pows = [n for n in ast.walk(scale) if isinstance(n, ast.BinOp) and isinstance(n.op, ast.Pow) and const_value(n.left) == 10]
@@ -551,4 +563,10 @@ def rule_generators(ck):
      oo.fail('magnitude_bins does not forward (start, end, step) unchanged and in order to cleaner_range'))
 
 
-RULES = [rule_kernel, rule_tolerance, rule_range, rule_callsites, rule_generators]
+def rule_pure(ck):
+    from . import c03
+    ck.clause('D4 (shared C03-D6: bin indices are recomputed, never memoised)')
+    c03.rule_pure_gridding(ck)
+
+
+RULES = [rule_kernel, rule_tolerance, rule_range, rule_callsites, rule_generators, rule_pure]
